@@ -18,6 +18,11 @@
 (* assignment: rhs first, then targets left to right; 7.2.1 augmented: target *)
 (* operands once, load, rhs, op, store).  Not observed: __hash__/__eq__      *)
 (* calls made by dict/set displays.                                          *)
+(* Membership over a literal display, x in (a, b, c) / [..] / {..} (and not in): x, then EVERY element left to *)
+(* right, exactly once, also when an earlier element already equals x; only then the comparisons, which stop at *)
+(* the first equal element.  Leaves of kind w / q are EQUALITY-AWARE logging objects (q always, w by typing):   *)
+(* their __eq__ is logged as an unordered pair and answers "both operands are falsy" (so the falsy outcome of   *)
+(* two leaves makes them equal, as 0 == 0 does for typed leaves); names P/Q stay plain objects (identity).      *)
 (* Cases are states: root -> AST -> (typing, all leaves truthy) -> one more    *)
 (* leaf outcome changed to falsy / raise (only leaves that are evaluated and  *)
 (* lie, in evaluation order, after every leaf changed before): each canonical *)
@@ -30,7 +35,8 @@ CONSTANTS MaxLeaves,  \* bound on the number of leaves of one-level expressions
           Mod,        \* sub-sampling of the two-level expressions and statements: structural hash % Mod = Rem
                       \* (Rem = IOEnv.C20_REM, set by the harness from the seed)
           Typings,    \* subset of {"O", "I", "M"}
-          Tops,       \* subset of {"ret1", "ret2", "assign", "aug", "unpack"}
+          Tops,       \* subset of {"ret1", "ret2", "assign", "aug", "unpack", "member"}
+          ModMem,     \* sub-sampling of the membership tests over displays with mixed operands (hash % ModMem = Rem % ModMem)
           Dump
 
 ---------------------------------------------------------------------------
@@ -44,13 +50,16 @@ RECURSIVE NL(_), NLs(_, _)
 NL(e) == IF e.t = "L" THEN 1 ELSE NLs(e.a, Len(e.a))
 NLs(s, n) == IF n = 0 THEN 0 ELSE NL(s[n]) + NLs(s, n - 1)
 
-VLeaf == Lf("v")   CLeaf == Lf("c")   SLeaf == Lf("s")   DLeaf == Lf("d")
+VLeaf == Lf("v")   CLeaf == Lf("c")   SLeaf == Lf("s")   DLeaf == Lf("d")   WLeaf == Lf("w")   QLeaf == Lf("q")
+\* membership test over a display: t in MemT, k the display kind, a[1] the tested value, a[2..] the elements
+MemT == {"inlit", "notinlit"}
+Mem(t, k, a) == [t |-> t, k |-> k, sig |-> <<>>, a |-> a]
 
 (* static classes of expressions (so that the semantics below is total) *)
 ObjForms == {"call", "getitem", "slice", "getattr"}
 RECURSIVE IsNum(_)
-IsNum(e) == \/ e.t = "L" /\ e.k \in {"v", "c"}
-            \/ e.t \in ObjForms \cup {"add", "neg", "lt", "lt3", "in", "notin", "not"}
+IsNum(e) == \/ e.t = "L" /\ e.k \in {"v", "c", "w", "q"}
+            \/ e.t \in ObjForms \cup {"add", "neg", "lt", "lt3", "in", "notin", "not"} \cup MemT
             \/ e.t \in {"and", "or", "cond"} /\ \A i \in 1..Len(e.a) : IsNum(e.a[i])
 IsScalar(e) == IsNum(e) \/ e.t \in {"fstr", "fspec"}
 IsObjY(e) == (e.t = "L" /\ e.k = "c") \/ e.t = "N" \/ e.t \in ObjForms
@@ -106,7 +115,8 @@ Core == {Nd("neg", <<VLeaf>>), Nd("not", <<VLeaf>>), Nd("getitem", <<CLeaf, VLea
          Nd("add", <<VLeaf, VLeaf>>), Nd("lt", <<VLeaf, VLeaf>>), Nd("and", <<VLeaf, VLeaf>>), Nd("or", <<VLeaf, VLeaf>>),
          Nd("tuple", <<VLeaf, VLeaf>>), Nd("list", <<VLeaf, VLeaf>>), Nd("fstr", <<VLeaf, VLeaf>>),
          CallN(<<"p", "s">>, <<Nm("P"), VLeaf, SLeaf>>), CallN(<<"k", "d">>, <<Nm("P"), VLeaf, DLeaf>>),
-         Nd("cond", <<VLeaf, VLeaf, VLeaf>>), Nd("lt3", <<VLeaf, VLeaf, VLeaf>>), Nd("slice", <<Nm("P"), VLeaf, VLeaf>>)}
+         Nd("cond", <<VLeaf, VLeaf, VLeaf>>), Nd("lt3", <<VLeaf, VLeaf, VLeaf>>), Nd("slice", <<Nm("P"), VLeaf, VLeaf>>),
+         Mem("inlit", "tuple", <<WLeaf, WLeaf, WLeaf>>), Mem("notinlit", "list", <<WLeaf, Nm("P"), WLeaf>>)}
 Core2 == {Nd("not", <<VLeaf>>), Nd("getitem", <<Nm("P"), VLeaf>>), CallN(<<"p">>, <<CLeaf, VLeaf>>), Nd("add", <<VLeaf, VLeaf>>),
           Nd("in", <<VLeaf, Nm("P")>>)}
 IdxCore == Index(Core, MaxLeaves2)
@@ -115,8 +125,9 @@ E2 == (Build(IdxA, IdxCore, MaxLeaves2, 1) \cup Build(IdxA, IdxCore2, MaxLeaves2
 
 (* structural hash for sub-sampling *)
 TNames == <<"L", "N", "call", "getitem", "slice", "getattr", "add", "neg", "lt", "lt3", "in", "notin", "and", "or", "not", "cond",
-            "tuple", "list", "set", "dict1", "dict2", "fstr", "fspec", "ret", "assign", "aug", "unpack", "tN", "tsub", "tattr", "tslice">>
-KNames == <<"", "v", "c", "s", "d", "P", "Q", "p", "k">>
+            "tuple", "list", "set", "dict1", "dict2", "fstr", "fspec", "ret", "assign", "aug", "unpack", "tN", "tsub", "tattr", "tslice",
+            "inlit", "notinlit">>
+KNames == <<"", "v", "c", "s", "d", "P", "Q", "p", "k", "w", "q", "tuple", "list", "set">>
 CodeOf(names, x) == CHOOSE i \in 1..Len(names) : names[i] = x
 RECURSIVE H(_), HS(_, _), HSig(_, _)
 H(e) == (CodeOf(TNames, e.t) * 37 + CodeOf(KNames, e.k) * 101 + HSig(e.sig, Len(e.sig)) + HS(e.a, Len(e.a))) % 1009
@@ -124,6 +135,7 @@ HS(s, n) == IF n = 0 THEN 0 ELSE ((2 * n + 3) * H(s[n]) + 7 * HS(s, n - 1)) % 10
 HSig(s, n) == IF n = 0 THEN 0 ELSE (n * CodeOf(KNames, s[n]) * 11 + HSig(s, n - 1)) % 1009
 Rem == IF "C20_REM" \in DOMAIN IOEnv THEN atoi(IOEnv.C20_REM) % Mod ELSE 0
 Sel(e) == H(e) % Mod = Rem
+SelMem(e) == H(e) % ModMem = Rem % ModMem
 
 \* operand pools for statements
 SVal == {VLeaf, Nd("not", <<VLeaf>>), Nd("neg", <<VLeaf>>), Nd("add", <<VLeaf, VLeaf>>), Nd("lt", <<VLeaf, VLeaf>>),
@@ -142,7 +154,19 @@ Targets0 == {Nd("tN", <<>>), Nd("tsub", <<Nm("P"), VLeaf>>), Nd("tsub", <<Nm("Q"
 RElt == {VLeaf, Nd("getitem", <<Nm("P"), VLeaf>>), Nd("getitem", <<Nm("Q"), VLeaf>>), Nd("not", <<VLeaf>>)}
 UnpackRhs == {SLeaf, CLeaf} \cup {Nd(t, <<x, y>>) : t \in {"tuple", "list"}, x \in RElt, y \in RElt}
 
+\* membership tests over displays (both operators, the three display kinds, 1..3 elements): the tested value and the
+\* elements are equality-aware leaves (MemBase: all of them, n >= 2) or drawn from pools with simple elements (a name:
+\* no temporary), nested non-simple elements (unary / binary operator, attribute, truth value) -- sub-sampled
+MemX == {WLeaf, Nd("neg", <<WLeaf>>), Nd("getattr", <<QLeaf>>)}
+MemE == {WLeaf, Nm("P"), Nd("neg", <<WLeaf>>), Nd("not", <<WLeaf>>), Nd("getattr", <<QLeaf>>), Nd("add", <<WLeaf, WLeaf>>)}
+MemArgs(X, E) == {<<x, a>> : x \in X, a \in E} \cup {<<x, a, b>> : x \in X, a \in E, b \in E} \cup
+                 {<<x, a, b, c>> : x \in X, a \in E, b \in E, c \in E}
+MemOf(X, E) == {Mem(t, k, a) : t \in MemT, k \in {"tuple", "list", "set"}, a \in {y \in MemArgs(X, E) : NLs(y, Len(y)) <= MaxLeaves}}
+MemBase == {m \in MemOf({WLeaf}, {WLeaf}) : Len(m.a) >= 3}
+Members == MemBase \cup {m \in MemOf(MemX, MemE) : SelMem(m)}
+
 Stmts ==
+  (IF "member" \in Tops THEN {Nd("ret", <<m>>) : m \in Members} ELSE {}) \cup
   (IF "ret1" \in Tops THEN {Nd("ret", <<e>>) : e \in {x \in E1 : IsVal(x)}} ELSE {}) \cup
   (IF "ret2" \in Tops THEN {Nd("ret", <<e>>) : e \in E2} ELSE {}) \cup
   (IF "assign" \in Tops THEN
@@ -155,7 +179,8 @@ Stmts ==
   (IF "unpack" \in Tops THEN {Nd("unpack", <<t1, t2, r>>) : t1 \in Targets0, t2 \in Targets0, r \in UnpackRhs} ELSE {})
 
 \* one-level expressions are always all included; the other families are sub-sampled
-Cases == {s \in Stmts : NL(s) >= 1 /\ NL(s) <= (IF s.t = "ret" /\ s.a[1] \in E1 THEN MaxLeaves ELSE MaxLeaves2) /\ ((s.t = "ret" /\ s.a[1] \in E1) \/ Sel(s))}
+Cases == {s \in Stmts : NL(s) >= 1 /\ NL(s) <= (IF s.t = "ret" /\ (s.a[1] \in E1 \/ s.a[1].t \in MemT) THEN MaxLeaves ELSE MaxLeaves2)
+                         /\ ((s.t = "ret" /\ (s.a[1] \in E1 \/ s.a[1].t \in MemT)) \/ Sel(s))}
 
 ---------------------------------------------------------------------------
 (* leaf paths: the root has path 0, child j of the node at path p has path 8p+j *)
@@ -201,15 +226,16 @@ Proto(st, self, name, args) ==
 Truth(st, v) == IF v.k = "obj" THEN [st |-> Log(st, v.r \o ".bool()"), b |-> v.t] ELSE [st |-> st, b |-> v.t]
 SliceR(i, j) == "slice(" \o Rp(i) \o ", " \o Rp(j) \o ", None)"
 
-ResolveKind(k, p, ty) == IF k # "v" THEN (IF k = "c" THEN "o" ELSE k)
-                         ELSE IF ty = "O" THEN "o" ELSE IF ty = "I" THEN "i" ELSE IF p % 2 = 1 THEN "i" ELSE "o"
+\* o plain logging object, q equality-aware logging object, i C int, s / d the star containers
+ResolveKind(k, p, ty) == IF k \notin {"v", "w"} THEN (IF k = "c" THEN "o" ELSE k)
+                         ELSE IF ty = "I" \/ (ty = "M" /\ p % 2 = 1) THEN "i" ELSE IF k = "v" THEN "o" ELSE "q"
 
 LeafEval(e, p, env, st) ==
   LET o  == env.out[p]
       s1 == Log(st, "L" \o ToString(p))
       rk == ResolveKind(e.k, p, env.ty)
   IN IF o = "R" THEN Res([s1 EXCEPT !.exc = "LeafErr"], NoneV)
-     ELSE CASE rk = "o" -> Res(s1, ObjV(p, o = "T"))
+     ELSE CASE rk \in {"o", "q"} -> Res(s1, ObjV(p, o = "T"))
             [] rk = "i" -> Res(s1, IntV(IF o = "T" THEN p ELSE 0))
             [] rk = "s" -> Res(s1, SeqV("(", ")", <<ObjV(10000 + p, TRUE), ObjV(20000 + p, TRUE)>>))
             [] rk = "d" -> Res(s1, Val("kw", "z" \o ToString(p) \o "=V" \o ToString(30000 + p), 0, TRUE, <<>>))
@@ -218,6 +244,24 @@ Cmp(st, a, b) == IF a.k = "obj" THEN Proto(st, a, "lt", Rp(b))
                  ELSE IF b.k = "obj" THEN Proto(st, b, "gt", Rp(a))
                  ELSE Res(st, BoolV(a.n < b.n))
 Fmt(st, v) == IF v.k = "obj" THEN [st |-> Log(st, v.r \o ".format('')"), s |-> v.r] ELSE [st |-> st, s |-> v.r]
+
+\* equality as the membership test sees it.  Equality-aware objects: everything but the names P / Q (every object
+\* inside a membership test stems from a w / q leaf).  The event is an unordered pair (CPython asks the element,
+\* the flattened comparison chain of Cython asks the tested value): object with the smaller id first, objects before numbers
+EqAware(v) == v.k = "obj" /\ v.n \notin {40001, 40002}
+EqEvent(a, b) == IF a.k = "obj" /\ b.k = "obj"
+                 THEN (IF a.n < b.n THEN a.r \o ".eq(" \o b.r \o ")" ELSE b.r \o ".eq(" \o a.r \o ")")
+                 ELSE IF a.k = "obj" THEN a.r \o ".eq(" \o Rp(b) \o ")" ELSE b.r \o ".eq(" \o Rp(a) \o ")"
+EqRes(a, b) == IF IsNumV(a) /\ IsNumV(b) THEN a.n = b.n
+               ELSE IF EqAware(a) \/ EqAware(b) THEN ~a.t /\ ~b.t
+               ELSE a.k = "obj" /\ b.k = "obj" /\ a.n = b.n
+\* vs[1] the tested value, vs[i..] the remaining elements; obs: the comparisons are observed (sequence displays; a set
+\* display hashes, which elements get compared is unspecified -- only the result is)
+RECURSIVE Member(_, _, _, _)
+Member(st, vs, i, obs) ==
+  IF i > Len(vs) THEN [st |-> st, b |-> FALSE]
+  ELSE LET s1 == IF obs /\ (EqAware(vs[1]) \/ EqAware(vs[i])) THEN Log(st, EqEvent(vs[i], vs[1])) ELSE st
+       IN IF EqRes(vs[i], vs[1]) THEN [st |-> s1, b |-> TRUE] ELSE Member(s1, vs, i + 1, obs)
 
 \* positional-phase and keyword-phase argument indexes of a call signature, each in source order
 SelIdx(sig, ks) == SelectSeq([i \in 1..Len(sig) |-> i], LAMBDA i : sig[i] \in ks)
@@ -262,6 +306,10 @@ Eval(e, p, env, st) ==
              y  == Eval(e.a[2], 8 * p + 2, env, f1.st)
          IN IF y.st.exc # "" THEN y
             ELSE LET f2 == Fmt(y.st, y.v) IN Res(f2.st, StrV(f1.s \o "-" \o f2.s))
+  ELSE IF e.t \in MemT THEN           \* x in (a, b, c): x, all elements, then the comparisons up to the first equal one
+    LET r == AllKids(e, p, env, st) IN
+    IF r.st.exc # "" THEN Res(r.st, NoneV)
+    ELSE LET m == Member(r.st, r.vs, 2, e.k # "set") IN Res(m.st, BoolV(m.b = (e.t = "inlit")))
   ELSE IF e.t = "call" THEN
     LET order == <<1>> \o [i \in 1..Len(SelIdx(e.sig, {"p", "s"})) |-> SelIdx(e.sig, {"p", "s"})[i] + 1]
                        \o [i \in 1..Len(SelIdx(e.sig, {"k", "d"})) |-> SelIdx(e.sig, {"k", "d"})[i] + 1]
@@ -408,6 +456,11 @@ RhsFirstB == ast.t \in {"assign", "unpack"} =>
                      /\ (isRhs(LPs[i]) /\ ~isRhs(LPs[j])) => Pos(LPs[i]) < Pos(LPs[j])
                      /\ (i < j /\ ~isRhs(LPs[i]) /\ ~isRhs(LPs[j])) => Pos(LPs[i]) < Pos(LPs[j])
 AugOrderB == ast.t = "aug" => \A i, j \in EvaluatedIdx : i < j => Pos(LPs[i]) < Pos(LPs[j])
+\* membership over a display whose operands are all leaves: every operand is evaluated (in source order) before the
+\* first comparison, whatever the values are; at most one comparison event per element follows
+MemberFirstB == (ast.t = "ret" /\ ast.a[1].t \in MemT /\ exc = "" /\ \A i \in 1..Len(ast.a[1].a) : ast.a[1].a[i].t = "L") =>
+                   /\ Len(log) >= Len(LPs) /\ \A i \in 1..Len(LPs) : log[i] = LeafTag(LPs[i])
+                   /\ Len(log) <= Len(LPs) + (Len(LPs) - 1) + 1
 CanonB == Canon(ast, lp, outs, log)
 CanonInv     == phase = "case" => CanonB
 AtMostOnce   == phase = "case" => AtMostOnceB
@@ -416,6 +469,7 @@ AllEvaluated == phase = "case" => AllEvaluatedB
 LeftToRight  == phase = "case" => LeftToRightB
 RhsFirst     == phase = "case" => RhsFirstB
 AugOrder     == phase = "case" => AugOrderB
+MemberFirst  == phase = "case" => MemberFirstB
 
 Publish == (Dump /\ phase = "case") => PrintT("@@" \o ToJson([ast |-> ast, ty |-> typ, lp |-> LPs, out |-> outs, log |-> log, exc |-> exc]))
 =============================================================================
